@@ -381,3 +381,34 @@ func (w *world) multiConfig(idx int, validScopes []transaction.WitnessScope, d1,
 	c.tclass = append(c.tclass, "unsigned-account", "stranger")
 	return c
 }
+
+// mutateConfigs: the configurations whose verdict depends on group membership:
+// every scopes configuration with the CustomGroups bit (quick: key account
+// only), and one rule
+// {Allow, Deny} x every condition of cs that mentions a Group or CalledByGroup atom.
+func (w *world) mutateConfigs(validScopes []transaction.WitnessScope, cs []lcond, contractAccount bool) []sconfig {
+	var out []sconfig
+	for _, c := range w.scopeConfigs(validScopes) {
+		if !contractAccount && strings.Contains(c.shape, "contract-account") {
+			continue
+		}
+		for i := range c.signers {
+			if c.signers[i].Scopes&transaction.CustomGroups != 0 {
+				c.part, c.idx = "mutate", len(out)
+				out = append(out, c)
+				break
+			}
+		}
+	}
+	var gs []lcond
+	for _, c := range cs {
+		if strings.Contains(c.shape, "G") { // G or CBG; no other kind label has a G
+			gs = append(gs, c)
+		}
+	}
+	for _, c := range w.rule1Configs("mutate", gs) {
+		c.idx = len(out)
+		out = append(out, c)
+	}
+	return out
+}
